@@ -5,7 +5,7 @@ from . import c01, c02, c03, c14
 
 ID = "C09"
 KINDS = {"U": ["nearest_within_half", "link_corrects", "link_bitflips", "link_chanSub", "ml_is_nearest_decoder"],
-         "R": ["link_instances", "ideal_channel_ok", "inverse_is_decoder", "link_reed (Reed-Muller + Reed decoder over any catalogue table, t flips per block + displacement)"],
+         "R": ["link_instances", "ideal_channel_ok", "inverse_is_decoder", "link_reed (Reed-Muller + Reed decoder over any catalogue table, t flips per block + displacement)", "link_bm_t1 (BCH, delta >= 3, Berlekamp-Massey with t = 1)"],
          "K": ["C01.instances_ok (shared catalogue)", "C14.instances_ok (shared tables)"]}
 PARTIAL = ["soft chains (soft demodulator -> Wagner / BP / min-sum / SC decoders) and the Berlekamp-Massey / Reed decoders inside the chain are checked on the implementation against the property "
            "(message returned), their Lean models being per component (C10, C11) and not composed here",
